@@ -7,3 +7,36 @@ def region(name):
         REGIONS[name] = fn
         return fn
     return deco
+
+
+# ---------------------------------------------------------------------------------------------
+# C08 (label renaming), segment: a frame that lies in no interval gets the fill value None from
+# util.intervals_to_samples, and util.index_labels reads every label through str(.).lower(): the missing label and a
+# segment label SPELLED "None" / "none" become one class.  Renaming that label to anything else (or another label to
+# "none") separates / merges the two and changes every frame-clustering score.  Complement of the hypothesis `hnone` of
+# Mir.C08.Segment.renamingFaithful_of_labels.
+def _reads_none(lab):
+    return str(lab).lower() == "none"
+
+
+def _leaves_time_uncovered(ivs):
+    """some part of [0, largest end] lies in no interval (exact arithmetic on the 'p/q' strings)"""
+    from fractions import Fraction as Fr
+    rows = sorted((Fr(a), Fr(b)) for a, b in ivs)
+    reach = Fr(0)
+    for a, b in rows:
+        if a > reach:
+            return True
+        reach = max(reach, b)
+    return False
+
+
+@region("segment_none_label_with_unlabelled_frames")
+def segment_none_label_with_unlabelled_frames(inp, what=""):
+    if "label renaming" not in what:
+        return False
+    for side in ("ref", "est"):
+        ivs, labs = inp[side]
+        if ivs and any(_reads_none(x) for x in labs) and _leaves_time_uncovered(ivs):
+            return True
+    return False
